@@ -1,17 +1,57 @@
 #!/usr/bin/env python3
-"""seedeval.py <seed-id>... [--checks C01,C02,...]
-Applies /verif/seeded/<seed-id>/patch.diff to /repo, runs the registered quick checks, records which
-of them report a violation (and of which kind), and always restores /repo afterwards.  Writes
-seeded/<seed-id>/caught.json; never commits anything to /repo."""
-import json, os, re, subprocess, sys, time
+"""seedeval.py <seed-id>... [--checks C01,C02,...] [--patch <file> --name <id>]
+Evaluates the registered quick checks against a seeded change WITHOUT touching /repo or /verif:
+copies /repo and /verif into a lab directory outside both, applies seeded/<seed-id>/patch.diff to the
+copy of the repository, points the copied harness at it (go.mod replace, VERIF_REPO) and runs every
+check there.  Records per check the exit code and the VIOLATION lines in seeded/<seed-id>/caught.json
+and removes the lab.  (The commands registered in MANIFEST.json never use this; they always run
+against /repo itself.)"""
+import json, os, re, shutil, subprocess, sys, time
 
 VERIF = os.path.dirname(os.path.dirname(os.path.abspath(__file__)))
 REPO = "/repo"
+LABROOT = os.environ.get("SEEDLAB", "/var/tmp/seedlab")
+GOENV = dict(os.environ, GOFLAGS="-mod=mod", GOPROXY="off", GOSUMDB="off", GOTOOLCHAIN="local")
 
 
 def sh(cmd, **kw):
     p = subprocess.run(cmd, stdout=subprocess.PIPE, stderr=subprocess.STDOUT, text=True, **kw)
     return p.returncode, p.stdout
+
+
+def evaluate(seed, patch, checks, outdir):
+    lab = os.path.join(LABROOT, seed)
+    shutil.rmtree(lab, ignore_errors=True)
+    os.makedirs(lab)
+    try:
+        sh(["rsync", "-a", "--exclude", ".git", REPO + "/", lab + "/repo/"])
+        sh(["git", "init", "-q"], cwd=lab + "/repo")
+        sh(["rsync", "-a", "--exclude", ".git", "--exclude", "replays", "--exclude", "seeded", VERIF + "/", lab + "/verif/"])
+        rc, out = sh(["git", "apply", patch], cwd=lab + "/repo")
+        if rc != 0:
+            print("patch does not apply:", out)
+            return None
+        rc, out = sh(["go", "mod", "edit", "-replace", "github.com/rigochain/rigo-go=" + lab + "/repo"], cwd=lab + "/verif/harness", env=GOENV)
+        if rc != 0:
+            print("go mod edit failed:", out)
+            return None
+        env = dict(os.environ, VERIF_REPO=lab + "/repo", VERIF_JOBS=os.environ.get("VERIF_JOBS", "8"))
+        res = {}
+        for c in checks:
+            t = time.time()
+            rc, out = sh([lab + "/verif/check", c, "--tier", "quick"], cwd=lab + "/verif", env=env)
+            kinds = []
+            for l in out.splitlines():
+                if l.startswith("VIOLATION"):
+                    kinds.append({"line": l.replace(lab + "/verif/", ""), "with_failing_input": not l.rstrip().endswith("no-failing-input-found")})
+            res[c] = {"exit": rc, "seconds": round(time.time() - t), "violations": kinds}
+            print(seed, c, "exit", rc, [k["line"] for k in kinds], flush=True)
+        if outdir:
+            with open(os.path.join(outdir, "caught.json"), "w") as f:
+                json.dump(res, f, indent=1)
+        return res
+    finally:
+        shutil.rmtree(lab, ignore_errors=True)
 
 
 def main():
@@ -21,37 +61,15 @@ def main():
         i = args.index("--checks")
         checks = args[i + 1].split(",")
         args = args[:i] + args[i + 2:]
+    if "--patch" in args:
+        i = args.index("--patch")
+        patch = args[i + 1]
+        name = args[args.index("--name") + 1] if "--name" in args else "adhoc"
+        evaluate(name, os.path.abspath(patch), checks, None)
+        return
     for seed in args:
         d = os.path.join(VERIF, "seeded", seed)
-        rc, out = sh(["git", "-C", REPO, "status", "--porcelain"])
-        if out.strip():
-            print("refusing: /repo is not clean:\n" + out)
-            sys.exit(2)
-        rc, out = sh(["git", "-C", REPO, "apply", os.path.join(d, "patch.diff")])
-        if rc != 0:
-            print("patch does not apply:", out)
-            sys.exit(2)
-        res = {}
-        try:
-            for c in checks:
-                t = time.time()
-                rc, out = sh([os.path.join(VERIF, "check"), c, "--tier", "quick"], cwd=VERIF)
-                lines = [l for l in out.splitlines() if l.startswith("VIOLATION")]
-                kinds = []
-                for l in lines:
-                    m = re.search(r"replay=(\S+)", l)
-                    kinds.append({"line": l.replace(VERIF + "/", ""),
-                                  "with_failing_input": not l.rstrip().endswith("no-failing-input-found")})
-                res[c] = {"exit": rc, "seconds": round(time.time() - t), "violations": kinds}
-                print(seed, c, "exit", rc, [k["line"] for k in kinds], flush=True)
-        finally:
-            sh(["git", "-C", REPO, "checkout", "--", "."])
-            sh(["git", "-C", REPO, "clean", "-fdq"])
-            sh(["rm", "-rf", os.path.join(VERIF, "replays")])
-        with open(os.path.join(d, "caught.json"), "w") as f:
-            json.dump(res, f, indent=1)
-    # the evidence files now describe runs against a modified tree: regenerate from the clean tree
-    print("NOTE: evidence/*.json were rewritten by runs against modified trees; re-run the checks on the clean tree")
+        evaluate(seed, os.path.join(d, "patch.diff"), checks, d)
 
 
 if __name__ == "__main__":
